@@ -78,6 +78,20 @@ def check_raw_name(syn, name, value):
     return []
 
 
+BEM_EXTRAS = ['.-e', '.-e_m', '._m', '.-e.z', '.-e[t=1]']
+
+
+def check_bem_multi(defn, extra):
+    "BEM shorthands written on an alias with several top-level elements, under a block parent: as on the elements themselves"
+    table = {'ka': '+'.join(n + a for n, a in defn)}
+    o = {'bem.enabled': True, 'output.format': False}
+    r1 = ex('d.b>ka' + extra, {'snippets': table, 'options': dict(o)})
+    r2 = ex('d.b>' + '+'.join(n + a + extra for n, a in defn), {'options': dict(o)})
+    if r1 != r2:
+        return [('user-table:bem-shorthand-on-an-alias-with-several-top-level-elements', dict(table=table, extra=extra, alias_output=r1, definition_output=r2))]
+    return []
+
+
 def shards(tier):
     out = [dict(kind='multi'), dict(kind='raw-names')]
     for syn in ('html', 'xsl', 'pug'):
@@ -254,6 +268,15 @@ def run_shard(shard, ctx, tier):
                         ctx.nontrivial += 1
                         for cls, d in check_multi(defn, extra, rev, repeat):
                             ctx.violation(cls, dict(kind='multi', defn=di, extra=extra, reverse=rev, repeat=repeat), d)
+        for di, defn in enumerate(MULTI_DEFS[:4]):
+            for extra in BEM_EXTRAS:
+                ctx.states += 1
+                ctx.transitions += 1
+                ctx.evals += 2
+                ctx.validated += 1
+                ctx.nontrivial += 1
+                for cls, d in check_bem_multi(defn, extra):
+                    ctx.violation(cls, dict(kind='bem-multi', defn=defn, extra=extra), d)
         ctx.sample(dict(kind='multi', definition='x.p+y.q', alias='ka.z'))
         return
     if shard['kind'] == 'builtin':
@@ -269,6 +292,10 @@ def run_shard(shard, ctx, tier):
                     ctx.skip('attribute/text/repeater extras on a multi-element or text definition')
                 if TEXT_TAIL.search(D):
                     ctx.skip('children appended to an alias whose definition ends in a text-only node')
+                    # where such children are placed is left open, but they are written (weak oracle)
+                    r_ = ex(key + '>k9', {'syntax': syn, 'options': {'output.format': False}})
+                    if not isinstance(r_, tuple) and 'k9' not in r_:
+                        ctx.violation('builtin:children-of-an-alias-lost', dict(kind='builtin-child', syntax=syn, key=key), dict(abbr=key + '>k9', output=r_[:200]))
                 for ctx_name, a, dd in pairs:
                     ctx.tick((syn, a))
                     ctx.states += 1
@@ -303,6 +330,13 @@ def run_shard(shard, ctx, tier):
 
 
 def check_case(case):
+    if case['kind'] == 'builtin-child':
+        r_ = ex(case['key'] + '>k9', {'syntax': case['syntax'], 'options': {'output.format': False}})
+        if not isinstance(r_, tuple) and 'k9' not in r_:
+            return [('builtin:children-of-an-alias-lost', dict(output=r_[:200]))]
+        return []
+    if case['kind'] == 'bem-multi':
+        return check_bem_multi(case['defn'], case['extra'])
     if case['kind'] == 'raw-name':
         return check_raw_name(case['syntax'], case['name'], case['value'])
     if case['kind'] == 'multi':
@@ -314,6 +348,8 @@ def check_case(case):
 
 
 def repro(case):
+    if case['kind'] in ('builtin-child', 'bem-multi'):
+        return '# see mc/props/c14.py: %r\n' % (case,)
     if case['kind'] == 'raw-name':
         return 'from emmet.config import Config\nprint(Config({"syntax": %r}).snippets.get(%r))  # raw table lists this name\n' % (case['syntax'], case['name'])
     if case['kind'] == 'multi':
